@@ -18,6 +18,22 @@ type Ctx struct {
 	P    *core.Prog
 	L    *core.Ledger
 	Tier string
+	seen map[string]int
+}
+
+// nth makes a construct name unique within one run: the second and later
+// occurrences of the same (rule, function, construct) get " #2", " #3", ... in
+// order of appearance, so that sibling sites are separate obligations.
+func (c *Ctx) nth(rule, fn, construct string) string {
+	if c.seen == nil {
+		c.seen = map[string]int{}
+	}
+	k := rule + "|" + fn + "|" + construct
+	c.seen[k]++
+	if n := c.seen[k]; n > 1 {
+		return sprintf("%s #%d", construct, n)
+	}
+	return construct
 }
 
 // Property describes one check.
@@ -100,7 +116,7 @@ func (c *Ctx) check(ok bool, rule string, f *ssa.Function, construct string, at 
 	if f != nil {
 		name = core.FuncName(f)
 	}
-	return c.L.Check(ok, rule, name, construct, pos, reason)
+	return c.L.Check(ok, rule, name, c.nth(rule, name, construct), pos, reason)
 }
 
 // undecided records that the rule cannot establish the clause.
@@ -115,7 +131,7 @@ func (c *Ctx) undecided(rule string, f *ssa.Function, construct string, at ssa.I
 	if f != nil {
 		name = core.FuncName(f)
 	}
-	c.L.Record(core.Undecided, rule, name, construct, pos, reason)
+	c.L.Record(core.Undecided, rule, name, c.nth(rule, name, construct), pos, reason)
 }
 
 func sprintf(f string, a ...any) string { return fmt.Sprintf(f, a...) }
